@@ -17,8 +17,6 @@ import (
 	"sync"
 	"time"
 
-	"google.golang.org/protobuf/proto"
-
 	"github.com/tochemey/goakt/v4/crdt"
 	"github.com/tochemey/goakt/v4/internal/address"
 	"github.com/tochemey/goakt/v4/internal/cluster"
@@ -109,7 +107,6 @@ type c41Env struct {
 	acts []*replicatorActor
 	cap  *c41Capture
 	cpid *PID
-	t0   time.Time
 }
 
 // c41NewEnv must be called inside a bubble.
@@ -147,7 +144,6 @@ func c41NewEnv(n int, ttl time.Duration) *c41Env {
 		act.clusterRef = &c41Cluster{peers: peers}
 		act.remoting = &c41Remoting{env: e}
 	}
-	e.t0 = time.Now()
 	return e
 }
 
@@ -317,5 +313,3 @@ func c41MsgString(e *c41Env, m any, now time.Time) string {
 	}
 	return fmt.Sprintf("%T", m)
 }
-
-var _ = proto.Clone
